@@ -59,6 +59,11 @@ type c14Result struct {
 	Batches     []*model.Batch
 	Ops         []string // fault-free reference: op kinds by index
 	NoProgress  string   // goroutine dump when the workload stopped making progress
+	MergeProbe  string   // set when further batches after the fault were no longer merged
+	DeadLoop    string   // a background goroutine of the open writer that no longer exists after the fault
+	EventsBeforeProbe int // length of the directory trace when the merge-alive probe began
+	OpsBeforeProbe    int // number of directory operations before the probe (fault placements are drawn from these)
+	SegmentsAfterProbe int
 }
 
 var errInjected = errors.New("injected I/O error")
@@ -226,6 +231,59 @@ func c14Workload(cs *c14Case, res *c14Result) {
 		res.FinalBatch = err.Error()
 	}
 	cur = cur.Apply(fb)
+	// background work goes on after the fault: a dozen more one-document batches must not simply pile up
+	// as a dozen more segments (the merge-happy plan keeps a handful), i.e. the merger is still at work
+	if res.FinalBatch == "" {
+		segCount := func() int {
+			rd, err := w.Reader()
+			if err != nil {
+				return -1
+			}
+			defer rd.Close()
+			return len(rd.VerifSnapshot().Segments())
+		}
+		waitQuiet(w)
+		res.EventsBeforeProbe = len(rdir.Events())
+		mu.Lock()
+		res.OpsBeforeProbe = len(res.Ops)
+		mu.Unlock()
+		before := segCount()
+		const probes = 14
+		ok := true
+		for k := 0; k < probes && ok; k++ {
+			n++
+			pb := &model.Batch{Ops: []model.Op{{Kind: "update", ID: fmt.Sprintf("probe%d", k), Doc: &model.Doc{ID: fmt.Sprintf("probe%d", k), V: fmt.Sprintf("probe-v%d", k), Text: map[string]string{"t": "probe"}}}}}
+			res.Batches = append(res.Batches, pb)
+			rdir.Mark("call", n)
+			if err := w.Batch(pb.ToBluge()); err != nil {
+				res.FinalBatch = fmt.Sprintf("batch %d after the fault cleared: %v", n, err)
+				ok = false
+			} else if !cs.Unsafe {
+				rdir.Mark("ack", n)
+			}
+			cur = cur.Apply(pb)
+		}
+		waitQuiet(w)
+		after := segCount()
+		// (on a loaded machine "quiet" can be reported before the merger got to run: give it up to 20 s)
+		for dl := time.Now().Add(20 * time.Second); ok && after >= before+probes-2 && time.Now().Before(dl); {
+			time.Sleep(100 * time.Millisecond)
+			after = segCount()
+		}
+		// the hard verdict is structural: the writer's three background goroutines must still exist
+		dump := goroutineDump()
+		for _, loop := range []string{").introducerLoop(", ").persisterLoop(", ").mergerLoop("} {
+			if !strings.Contains(dump, loop) {
+				res.DeadLoop = strings.Trim(loop, ").(")
+			}
+		}
+		if ok && before >= 0 && after >= before+probes-2 {
+			st := w.VerifIndexWriter().Stats()
+			res.MergeProbe = fmt.Sprintf("%d segments before, %d after %d further one-document batches and quiescence (merge-happy options): nothing was merged any more [merger loop begun %d ended %d errors %d, plans %d (none %d, ok %d, err %d), merge introductions %d, persister loop begun %d, persisted epoch %d, root epoch %d]", before, after, probes,
+				st.TotFileMergeLoopBeg, st.TotFileMergeLoopEnd, st.TotFileMergeLoopErr, st.TotFileMergePlan, st.TotFileMergePlanNone, st.TotFileMergePlanOk, st.TotFileMergePlanErr, st.TotIntroducedSegmentsMerge, st.TotPersistLoopBeg, st.LastPersistedEpoch, st.CurRootEpoch)
+		}
+		res.SegmentsAfterProbe = after
+	}
 	if held != nil {
 		if d, err := dumpReader(held); err != nil || fmt.Sprint(d) != fmt.Sprint(heldState) {
 			res.ReaderBad = append(res.ReaderBad, fmt.Sprintf("reader held since batch 2 now shows %v (err %v), it showed %v", d, err, heldState))
@@ -269,6 +327,9 @@ func runC14(c *vk.Ctx) {
 			c.Violate("fault-free-run-reports-error", fmt.Sprintf("batch errors %v async %v readers %v final %q", refRes.BatchErrs, refRes.AsyncErrors, refRes.ReaderBad, refRes.FinalBatch), nil)
 		}
 		byOp := map[string][]int{}
+		if refRes.OpsBeforeProbe > 0 && refRes.OpsBeforeProbe < len(refRes.Ops) {
+			refRes.Ops = refRes.Ops[:refRes.OpsBeforeProbe] // the merge-alive probe at the end is not part of the history under fault
+		}
 		for i, o := range refRes.Ops {
 			name := strings.TrimSuffix(strings.TrimSuffix(o, ".snp"), ".seg")
 			byOp[name] = append(byOp[name], i)
@@ -381,6 +442,15 @@ func c14Judge(c *vk.Ctx, cs *c14Case, res *vk.ChildResult) {
 	for _, b := range out.ReaderBad {
 		c.Violate("reader-wrong-under-fault", fmt.Sprintf("%s fault (%s) at operation %d: %s", cs.Op, cs.Mode, cs.FaultAt, b), wit)
 	}
+	if out.DeadLoop != "" {
+		c.Violate("background-goroutine-gone-after-fault:"+out.DeadLoop, fmt.Sprintf("%s fault (%s, sticky=%v) at operation %d, cleared afterwards: the open writer's %s goroutine no longer exists (%s)", cs.Op, cs.Mode, cs.Sticky, cs.FaultAt, out.DeadLoop, out.MergeProbe), wit)
+	} else if out.MergeProbe != "" {
+		// no merge within 20 s although all three loops are alive: a wall-clock observation, not a verdict
+		c.Inconclusive("no-merge-within-20s-after-fault")
+		c.Event("merge_probe_slow", 1)
+	} else if out.SegmentsAfterProbe > 0 {
+		c.Event("merge_alive_probes_after_fault", 1)
+	}
 	for _, e := range out.Events {
 		if e.Op == "mark" && e.Tag == "write-error-swallowed" {
 			c.Violate("write-error-not-reported", fmt.Sprintf("a Write into %s failed with the injected error after %d bytes, yet the item writer and Directory.Persist reported success for the truncated file (%s fault, %s, operation %d)", mon.FileName(e.Kind, e.ID), e.N, cs.Op, cs.Mode, cs.FaultAt), wit)
@@ -442,7 +512,11 @@ func c14Judge(c *vk.Ctx, cs *c14Case, res *vk.ChildResult) {
 	}
 	all := mon.Images(out.Events, mon.ImageOpts{})
 	var images []*mon.Image
-	for _, im := range all {
+	for k, im := range all {
+		// (the images of the merge-alive probe that follows the faulty history are left out, except the last)
+		if out.EventsBeforeProbe > 0 && im.Pos > out.EventsBeforeProbe && k != len(all)-1 {
+			continue
+		}
 		if im.Class == "boundary" || im.Class == "torn-full" || im.Class == "torn-absent" {
 			images = append(images, im)
 		}
